@@ -183,7 +183,8 @@ SeqLongProg(x) ==
 (* C07 for whole streams: a sequence of frames (rejected ones among them) delivered in one piece, then again one byte at a   *)
 (* time, through bufio in one piece / in small pieces / with io.EOF on the last bytes: call by call the same outcome         *)
 SeqSchedCases == {[kind |-> "seqsched", fs |-> <<a, b, c3>>] :
-                    a \in {<<64, 1, 0>>, <<32, 5, 0, 0, 2, 37, 2>>, <<48, 5, 0, 1, 97, 0, 122>>, <<130, 7, 0, 1, 0, 0, 5, 97, 1>>, <<192, 2, 1, 2>>},
+                    a \in {<<64, 1, 0>>, <<32, 5, 0, 0, 2, 37, 2>>, <<48, 5, 0, 1, 97, 0, 122>>, <<130, 7, 0, 1, 0, 0, 5, 97, 1>>, <<192, 2, 1, 2>>,
+                           <<192, 128, 0>>, <<64, 130, 0, 0, 1>>, <<224, 129, 128, 0, 4>>},      \* remaining lengths not in their minimal form
                     b \in {<<192, 0>>, <<50, 6, 0, 1, 97, 0, 7, 0>>, <<64, 3, 0, 1, 16>>},
                     c3 \in {<<224, 0>>, <<32, 3, 0, 0, 0>>}}
 SeqSchedProg(x) ==
@@ -198,6 +199,7 @@ SeqSchedProg(x) ==
              \o deliver([chunks |-> <<>>, fate |-> "eof", with |-> FALSE], "bufio")
              \o deliver([chunks |-> [i \in 1..n |-> 1], fate |-> "eof", with |-> TRUE], "bufio")
              \o deliver([chunks |-> <<3, 0, 2>>, fate |-> "eof", with |-> TRUE], "bufio16")
+             \o deliver([chunks |-> <<3>> \o [i \in 1..120 |-> 0] \o <<1>> \o [i \in 1..110 |-> 0], fate |-> "eof", with |-> FALSE], "bufio")   \* the transport stalls for long
              \o deliver([chunks |-> <<>>, fate |-> "eof", with |-> TRUE], "")
              \o deliver([chunks |-> <<>>, fate |-> "eof", with |-> FALSE], "bytes.Buffer")]
 
@@ -291,6 +293,16 @@ WfSubProg(x) ==
                         [op |-> "ReadPacket", h |-> 2, stream |-> 1], [op |-> "Diag", h |-> 2]>>
                  ELSE <<>>)]
 
+(* a PUBLISH that is (also) the will of a CONNECT, and the will a decoded CONNECT hands out through Will(): the same rules *)
+WfWillCases == {[kind |-> "wfwill", qos |-> q, pid |-> pid, topic |-> tp] : q \in 0..2, pid \in {0, 9}, tp \in {<<>>, Txt(2)}}
+WfWillProg(x) ==
+  [fam |-> "wf", meta |-> [kind |-> x.kind],
+   steps |-> <<[op |-> "Pub", h |-> 2, args |-> <<x.qos, x.topic, Bin(2)>>], CallOp(2, "SetPacketID", <<x.pid>>), [op |-> "Diag", h |-> 2],
+               [op |-> "New", h |-> 1, type |-> "Connect"], CallOp(1, "SetWill", <<[h |-> 2]>>), [op |-> "Diag", h |-> 2],
+               [op |-> "WriteTo", h |-> 1], [op |-> "Stream", stream |-> 1, from |-> 1], [op |-> "ReadPacket", h |-> 3, stream |-> 1],
+               [op |-> "Adopt", h |-> 4, from |-> 3, key |-> "Will"], [op |-> "Diag", h |-> 4],
+               CallOp(4, "SetQoS", <<1>>), [op |-> "Diag", h |-> 4], CallOp(4, "SetPacketID", <<5>>), [op |-> "Diag", h |-> 4],
+               [op |-> "Diag", h |-> 2]>>]
 WfFilterCases == {[kind |-> "wffilter", opt |-> opt, empty |-> em] : opt \in 0..255, em \in BOOLEAN}
                  \cup {[kind |-> "wfspecial", sx |-> sx, opt |-> opt, pos |-> pos] : sx \in SpecialTexts, opt \in {0, 1, 3, 4, 5, 7, 12, 44, 60, 68}, pos \in 1..2}
 WfSpecialProg(x) ==      \* a filter MQTT gives a meaning to, alone and as the second filter of a SUBSCRIBE, built and decoded
@@ -396,6 +408,9 @@ CredShapes == {p \in ConnectPkts({TRUE}, {NoWill, [w |-> TRUE, wq |-> 1, wr |-> 
 CredCases ==
   {[kind |-> "cred", p |-> p, n |-> n, variant |-> vr, decoded |-> dc, reuse |-> FALSE, wk |-> 0] :
      p \in CredShapes, n \in CredLens, vr \in 1..8, dc \in BOOLEAN}
+  \* relations between a secret and other fields, and secrets that begin like an authorisation scheme
+  \cup {[kind |-> "cred", p |-> p, n |-> n, variant |-> vr, decoded |-> dc, reuse |-> FALSE, wk |-> 0] :
+         p \in CredShapes, n \in {9, 40}, vr \in 9..13, dc \in BOOLEAN}
   \* the two CONNECT values are reused: a frame without credentials is decoded INTO each of them
   \cup {[kind |-> "cred", p |-> p, n |-> n, variant |-> vr, decoded |-> FALSE, reuse |-> TRUE, wk |-> 0] :
          p \in CredShapes, n \in {1, 9}, vr \in {1, 3}}
@@ -408,12 +423,19 @@ SecretA(x) == IF x.variant = 1 THEN Fill(x.n, 65)
               ELSE IF x.variant = 3 THEN Fill(x.n, 42)                                          \* the mask character
               ELSE IF x.variant = 7 THEN Fill(x.n, 32)                                          \* blank
               ELSE IF x.variant = 8 THEN Fill(x.n, 48)                                          \* zeros (digits)
+              ELSE IF x.variant = 11 THEN [i \in 1..x.n |-> IF i <= 7 THEN <<66, 101, 97, 114, 101, 114, 32>>[i] ELSE 97 + (i % 26)]   \* "Bearer " ...
+              ELSE IF x.variant = 12 THEN [i \in 1..x.n |-> IF i <= 6 THEN <<66, 97, 115, 105, 99, 32>>[i] ELSE 97 + (i % 26)]        \* "Basic " ...
+              ELSE IF x.variant = 13 THEN [i \in 1..x.n |-> IF i = 1 THEN 36 ELSE IF i = x.n THEN 47 ELSE 97 + (i % 26)]               \* $ ... /
               ELSE [i \in 1..x.n |-> Txt(4)[((i - 1) % 4) + 1]]                                 \* repeats the will topic
-SecretB(x) == [i \in 1..x.n |-> IF i = x.n THEN 90 ELSE SecretA(x)[i] + (IF i % 2 = 0 THEN 1 ELSE 0)]
+SecretB(x) == IF x.variant \in 11..13 THEN [i \in 1..x.n |-> 98 + (i % 24)]           \* nothing of the scheme left
+              ELSE [i \in 1..x.n |-> IF i = x.n THEN 90 ELSE SecretA(x)[i] + (IF i % 2 = 0 THEN 1 ELSE 0)]
 CredOps(x, h, hw, su, sp) ==
   \* variant 5: a user property value equals the first secret; variant 6: the client identifier does (in BOTH packets)
   LET q0 == IF x.variant = 5 THEN [x.p EXCEPT !.v["Props"] = Append(@, PV(38, <<Txt(2), SecretA(x)>>))]
-            ELSE IF x.variant = 6 THEN [x.p EXCEPT !.v["ClientID"] = SecretA(x)] ELSE x.p
+            ELSE IF x.variant = 6 THEN [x.p EXCEPT !.v["ClientID"] = SecretA(x)]
+            ELSE IF x.variant = 9 THEN [x.p EXCEPT !.v["ClientID"] = SecretA(x) \o <<64, 120, 121>>]           \* client id = <secret>@xy
+            ELSE IF x.variant = 10 THEN [x.p EXCEPT !.v["ClientID"] = <<120, 47>> \o SecretA(x)]               \* client id = x/<secret>
+            ELSE x.p
       q == [q0 EXCEPT !.v["Username"] = su] IN
   LET q2 == IF "Password" \in DOMAIN q.v THEN [q EXCEPT !.v["Password"] = sp] ELSE q
       ops == BuildOps(q2) IN
@@ -752,13 +774,17 @@ ReuseProg(x) ==
 (***************************************************************************)
 ManyNs == IF Thorough THEN {100, 1000, 10000} ELSE {100, 1000}
 UPs(n) == [i \in 1..n |-> PV(38, <<<<107, 48 + (i % 10)>>, <<118>>>>)]
-ManyCases == IF 1 \in TYPES THEN {[kind |-> "many", n |-> n, w |-> w] : n \in ManyNs, w \in 1..6} ELSE {}
+ManyCases == IF 1 \in TYPES THEN {[kind |-> "many", n |-> n, w |-> w] : n \in ManyNs, w \in 1..8} ELSE {}
 ManyPkt(x) ==
   IF x.w = 1 THEN [t |-> 3, fl |-> 0, v |-> [TopicName |-> Txt(3), Props |-> UPs(x.n), Payload |-> Bin(4)]]
   ELSE IF x.w = 2 THEN [t |-> 14, fl |-> 0, v |-> [ReasonCode |-> 0, Props |-> UPs(x.n)]]
   ELSE IF x.w = 3 THEN [t |-> 8, fl |-> 2, v |-> [PacketID |-> 1, Props |-> UPs(x.n \div 10), Filters |-> [i \in 1..x.n |-> <<<<102, 48 + (i % 10)>>, i % 3>>]]]
   ELSE IF x.w = 4 THEN [t |-> 9, fl |-> 0, v |-> [PacketID |-> 1, Props |-> <<>>, ReasonCodes |-> [i \in 1..x.n |-> i % 3]]]
   ELSE IF x.w = 5 THEN [t |-> 3, fl |-> 0, v |-> [TopicName |-> Txt(3), Props |-> [i \in 1..x.n |-> PV(11, 1 + (i % 100))], Payload |-> <<>>]]
+  ELSE IF x.w \in {7, 8} THEN      \* CONNECT: the user properties of the will (7) / of the packet (8)
+       [t |-> 1, fl |-> 0, v |-> [ProtocolName |-> MQTTName, ProtocolVersion |-> 5, ConnectFlags |-> 4 + 2, KeepAlive |-> 10,
+                                  Props |-> IF x.w = 8 THEN UPs(x.n) ELSE <<>>, ClientID |-> Txt(2),
+                                  WillProps |-> IF x.w = 7 THEN UPs(x.n) ELSE <<>>, WillTopic |-> Txt(3), WillPayload |-> <<>>]]
   ELSE [t |-> 10, fl |-> 2, v |-> [PacketID |-> 1, Props |-> <<>>, Filters |-> [i \in 1..x.n |-> <<102, 48 + (i % 10)>>]]]
 ManyProg(x) == ReadProg("many", Encode(ManyPkt(x)), [kind |-> x.kind, n |-> x.n, w |-> x.w])
 
@@ -770,7 +796,7 @@ Cases2 ==
   ELSE IF FAMILY = "seqlong" THEN SeqLongCases
   ELSE IF FAMILY = "huge" THEN SeqHugeCases          \* a frame above 1 MiB followed by two more on the same stream (thorough tier only)
   ELSE IF FAMILY = "first" THEN {x \in FirstCases : FirstValid(x)}
-  ELSE IF FAMILY = "wf" THEN WfPublishCases \cup WfSubscribeCases \cup WfFilterCases \cup WfWireCases
+  ELSE IF FAMILY = "wf" THEN WfPublishCases \cup WfSubscribeCases \cup WfFilterCases \cup WfWireCases \cup WfWillCases
   ELSE IF FAMILY = "render" THEN RenderCases
   ELSE IF FAMILY = "wfault" THEN WFaultCases \cup (IF 1 \in TYPES THEN OddCases ELSE {})
   ELSE IF FAMILY = "cred" THEN CredCases
@@ -799,6 +825,7 @@ ProgOf2(x) ==
   ELSE IF x.kind = "wffilter" THEN WfFilterProg(x)
   ELSE IF x.kind = "wfspecial" THEN WfSpecialProg(x)
   ELSE IF x.kind = "wfwire" THEN WfWireProg(x)
+  ELSE IF x.kind = "wfwill" THEN WfWillProg(x)
   ELSE IF x.kind \in {"rcode", "rcodes", "cflags", "aflags", "zero", "rname"} THEN RenderProg(x)
   ELSE IF x.kind = "wfault" THEN WFaultProg(x)
   ELSE IF x.kind \in {"wfaultbig", "wfaultbigc"} THEN WFaultBigProg(x)
